@@ -44,7 +44,7 @@ func schedScenarios(thorough bool) []schedScen {
 		{"pppoe-server PADT||LCP-Terminate-Request", scPPPoE(false)},
 		{"subscriber TerminateSession||TerminateSession +alloc", scSubMgr(true)},
 	}
-	s = append(s, resScenarios()...) // per-resource release primitives called by two paths at once (sched_res_test.go)
+	s = append(s, resScenarios(thorough)...) // per-resource release primitives called by two paths at once (sched_res_test.go)
 	if thorough {
 		s = append(s,
 			schedScen{"teardown TerminateSession||HandleClientPADT +alloc", scTeardown(true)},
@@ -371,7 +371,7 @@ func runSched(run *report.Run, e *kenv) {
 	bound := 2
 	budget := 25 * time.Second
 	if run.Thorough() {
-		bound, budget = 3, 6*time.Minute
+		bound, budget = 3, 10*time.Minute // per scenario; dhcp RELEASE||expiry +alloc needs ~330k executions at bound 3 since nat and qos locks are scheduling points too
 	}
 	for _, sc := range schedScenarios(run.Thorough()) {
 		name := "sched:" + sc.name
